@@ -33,12 +33,13 @@ Definition wstep_shared (w : sworld) (i : nat) : sworld :=
 
 (* which package-level variables exist and who writes them: the only ones allowed are never written and hold error
    values (from the standard constructors or a constructor of the package that returns an error), compiled regular
-   expressions, constants, the logger and read-only tables (literals of plain values that the sources only index, range
+   expressions, constants, values of a basic type computed once by a function of the package, the logger and read-only tables (literals of plain values that the sources only index, range
    over or measure: tools/go2coq/globals.go) *)
 Definition allowed_global (row : string * string * string * list string) : bool :=
   let '(pkg, name, kind, writers) := row in
   match writers with
-  | [] => existsb (String.eqb kind) ["call:errors.New"; "call:fmt.Errorf"; "call:regexp.MustCompile"; "returns:error"; "returns:*DocumentError"; "returns:*Logger"; "constant"; "literal:read-only table"]%string
+  | [] => existsb (String.eqb kind) ["call:errors.New"; "call:fmt.Errorf"; "call:regexp.MustCompile"; "returns:error"; "returns:*DocumentError"; "returns:*Logger"; "constant"; "literal:read-only table";
+                                         "returns:float64"; "returns:int"; "returns:string"; "returns:bool"]%string
   | _ => false
   end.
 Definition globals_ok : bool := forallb allowed_global globals.
